@@ -33,6 +33,7 @@ class Stats:
         self.samples = []
         self.known = {}         # known-finding key -> (count, example)
         self.observations = []  # things worth reporting that are not violations
+        self.slowest = (0.0, None)
 
     def count(self, name, n=1):
         self.counters[name] += n
@@ -53,7 +54,8 @@ class Stats:
                 'distinct': {k: sorted(v) for k, v in self.distinct.items()},
                 'samples': self.samples,
                 'known': self.known,
-                'observations': self.observations}
+                'observations': self.observations,
+                'slowest': self.slowest}
 
     @staticmethod
     def merge(exports):
@@ -71,6 +73,8 @@ class Stats:
                     s.known[k] = (n, ex)
             for x in e['observations']:
                 s.observe(x, cap=10)
+            if e.get('slowest') and e['slowest'][0] > s.slowest[0]:
+                s.slowest = tuple(e['slowest'])
         return s
 
 
@@ -136,7 +140,11 @@ def run_batch(engine, tier, hs, stats, known, max_examples, deadline, shrink_s=6
             # shrink budget used up: let Hypothesis wind down quickly; the
             # best plan found so far is kept in `failure`
             return
+        t_plan = time.monotonic()
         fresh = classify(plan, shrinking)
+        dt = time.monotonic() - t_plan
+        if dt > stats.slowest[0]:
+            stats.slowest = (round(dt, 2), repr(plan)[:400])
         if not shrinking:
             stats.count('evaluations')
         else:
@@ -196,7 +204,8 @@ def _worker(args):
         engine.worker_exit()
         faulthandler.cancel_dump_traceback_later()
         return {'w': w, 'stats': stats.export(), 'failure': failure,
-                'batches_done': done, 'error': None}
+                'batches_done': done, 'error': None,
+                'wall': time.monotonic() - deadline + wall_s}
     except BaseException:
         faulthandler.cancel_dump_traceback_later()
         return {'w': w, 'stats': Stats().export(), 'failure': None,
@@ -350,6 +359,9 @@ def run_check(engine_name, tier, seed_, nworkers=None):
     cov['known_findings_seen'] = {k: v[0] for k, v in stats.known.items()}
     cov['observations'] = stats.observations
     cov['harness_errors'] = errors[:5]
+    cov['slowest_plan_wall_s'] = stats.slowest[0]
+    cov['slowest_plan'] = stats.slowest[1]
+    cov['worker_wall_s'] = sorted(round(r.get('wall', 0), 1) for r in results)
     os.makedirs(EVIDENCE_DIR, exist_ok=True)
     with open(os.path.join(EVIDENCE_DIR, engine.prop + '.json'), 'w') as f:
         json.dump(ev, f, indent=1, default=str)
